@@ -9,7 +9,10 @@ import (
 	"encoding/json"
 	"flag"
 	"fmt"
+	"github.com/ethereum/go-ethereum/common"
+	ethcrypto "github.com/ethereum/go-ethereum/crypto"
 	"io/ioutil"
+	"math/big"
 	"math/rand"
 	"os"
 	"sort"
@@ -121,6 +124,8 @@ type runner struct {
 	pids         []string // proposals created so far (governance scenarios)
 	govMode      bool
 	diffed       map[int]bool
+	ethContract  *types.Address
+	ethInBlock   map[string]int // eth transactions of a sender built for the current block (nonce = ledger nonce + that)
 }
 
 func digest(res *core.BlockResult) map[string]interface{} {
@@ -375,6 +380,37 @@ func (r *runner) build(n *core.Node, t Tx) (pb.Transaction, map[string]interface
 			"srcBxh": strings.Split(src, ":")[0], "dstBxh": strings.Split(dst, ":")[0], "hashok": t.Proof == "" || t.Proof == "ok",
 			"ms": t.Ms, "sigs": sigs, "notice": t.Notice, "art": art}
 		return tx, d
+	case "eth": // Ethereum-style transaction executed by the EVM: m = transfer | create | store | lowgas
+		var to *types.Address
+		var data []byte
+		gas := uint64(100000)
+		val := big.NewInt(0)
+		switch t.M {
+		case "create":
+			data, gas = core.StoreContractInit, 200000
+			r.ethContract = types.NewAddress(ethcrypto.CreateAddress(common.BytesToAddress(from.Addr.Bytes()), n.LedgerNonce(from.Addr)).Bytes())
+		case "store":
+			to = r.ethContract
+			if to == nil {
+				to = n.Account("nocontract").Addr
+			}
+			data = make([]byte, 32)
+			data[0], data[31] = 1, byte(len(r.ids)+1)
+		case "lowgas":
+			to, gas, val = n.Account("u2").Addr, 20000, big.NewInt(1)
+		default:
+			to, gas, val = n.Account("u2").Addr, 21000, big.NewInt(3)
+		}
+		tx := n.EthTxNonce(from, to, val, gas, 1, data, n.LedgerNonce(from.Addr)+uint64(r.ethInBlock[from.Addr.String()]))
+		if t.M != "lowgas" {
+			r.ethInBlock[from.Addr.String()]++
+		}
+		tos := "nil"
+		if to != nil {
+			tos = to.String()
+		}
+		return tx, map[string]interface{}{"k": "eth", "from": from.Addr.String(), "to": tos, "cls": "eth", "badsig": false, "m": t.M,
+			"amtKind": "none", "amtNum": 0, "amt": ""}
 	case "transfer":
 		tx := n.TransferTx(from, n.Account(t.Dst).Addr, "7")
 		return tx, map[string]interface{}{"k": "transfer", "from": from.Addr.String(), "to": n.Account(t.Dst).Addr.String(), "cls": "transfer", "badsig": false, "m": "",
@@ -739,7 +775,7 @@ func (r *runner) run(dir string) {
 	}
 	r.pair = pair
 	defer pair.Close()
-	r.idset, r.gids, r.diffed = map[string]bool{}, map[string]bool{}, map[int]bool{}
+	r.idset, r.gids, r.diffed, r.ethInBlock = map[string]bool{}, map[string]bool{}, map[int]bool{}, map[string]int{}
 	r.govMode = p.GovMode
 	unord := map[string]bool{}
 	for _, s := range p.Unord {
@@ -754,7 +790,7 @@ func (r *runner) run(dir string) {
 		r.svcs = append(r.svcs, p.Fabric+":svc1")
 	}
 	setup := func(n *core.Node) error {
-		for _, u := range []string{"u1", "u2", "u3"} {
+		for _, u := range []string{"u1", "u2", "u3", "e1"} {
 			if _, err := n.Fund(n.Account(u).Addr, "6000000"); err != nil {
 				return err
 			}
@@ -858,6 +894,7 @@ func (r *runner) run(dir string) {
 		case "block":
 			var txs []pb.Transaction
 			var descs []map[string]interface{}
+			r.ethInBlock = map[string]int{}
 			for _, t := range st.Txs {
 				if t.From == "" {
 					t.From = "u1"
@@ -1111,6 +1148,9 @@ func genPlan(rng *rand.Rand, name string, mode string) *Plan {
 						nextR[pair]++
 					}
 					txs = append(txs, Tx{K: "ibtp", Src: s, Dst: d, Idx: idx, Typ: typ, Proof: proof, From: from})
+				} else if rng.Intn(3) == 0 {
+					m := []string{"transfer", "create", "store", "store", "lowgas"}[rng.Intn(5)]
+					txs = append(txs, Tx{K: "eth", From: "e1", M: m})
 				} else if rng.Intn(2) == 0 {
 					txs = append(txs, Tx{K: "transfer", From: from, Dst: "u2"})
 				} else {
